@@ -49,6 +49,11 @@ def _not(a):
 def _atom(e: ast.AST, t_txt: str, p_txt: str, order: str) -> str:
     """order in {'lt','eq','gt'}: numeric relation of the trial's fitness to the parent's."""
     if isinstance(e, ast.Compare) and len(e.ops) == 1:
+        # (a - b) OP 0  ==  a OP b ;  0 OP (a - b)  ==  b OP a
+        for side, other, flip in ((e.left, e.comparators[0], False), (e.comparators[0], e.left, True)):
+            if isinstance(side, ast.BinOp) and isinstance(side.op, ast.Sub) and isinstance(other, ast.Constant) and other.value == 0 and not isinstance(other.value, bool):
+                a_, b_ = (side.left, side.right) if not flip else (side.right, side.left)
+                return _atom(ast.Compare(left=a_, ops=e.ops, comparators=[b_]), t_txt, p_txt, order)
         l, r = canon(e.left), canon(e.comparators[0])
         op = type(e.ops[0])
         if {l, r} == {t_txt, p_txt}:
@@ -111,7 +116,7 @@ def replacement_table(ctx: Ctx, cname: str):
     d = local_defs(r)
     # a name that is both the flag of a switch and reassigned is not substituted
     def masky(x):
-        return any(isinstance(y, ast.Compare) for y in ast.walk(x)) or any(isinstance(y, ast.Call) and norm(y.func).split(".")[-1] in ("isclose", "logical_or", "logical_and", "logical_not", "less", "greater", "less_equal", "greater_equal", "where") for y in ast.walk(x)) or (isinstance(x, ast.Attribute) and x.attr in ("fitnesses", "maximize"))
+        return any(isinstance(y, ast.Compare) for y in ast.walk(x)) or any(isinstance(y, ast.Call) and norm(y.func).split(".")[-1] in ("isclose", "logical_or", "logical_and", "logical_not", "less", "greater", "less_equal", "greater_equal", "where") for y in ast.walk(x)) or (isinstance(x, ast.Attribute) and x.attr in ("fitnesses", "maximize")) or (isinstance(x, ast.BinOp) and isinstance(x.op, ast.Sub) and all(isinstance(y, ast.Attribute) and y.attr == "fitnesses" for y in (x.left, x.right)))
 
     sub = _Subst({k: v for k, v in d.items() if len(v) == 1 and not isinstance(v[0], ast.AugAssign) and masky(v[0])}, 5)
     def res1(e):
